@@ -3,6 +3,6 @@ CONSTANTS
   Ids = {1, 2, 3}
   MaxCount = 4
   AsCoded = FALSE
-  Crashes = FALSE
-  Batched = TRUE
+  Crashes = TRUE
+  Batched = FALSE
 INVARIANTS TypeOK InvLinked InvCountIsLength InvIndexExact InvById InvHeights InvRecords
